@@ -1,4 +1,5 @@
 #include "ref.h"
+#include "simfile.h"
 #include <openssl/evp.h>
 #include <openssl/hmac.h>
 #include <cstring>
@@ -106,6 +107,24 @@ void ref_aes_ecb_enc(const uint8_t key[16], const uint8_t in[16], uint8_t out[16
   EVP_CipherUpdate(c, tmp, &ol, in, 16);
   memcpy(out, tmp, 16);
   EVP_CIPHER_CTX_free(c);
+}
+
+Bytes ref_hmac_synth(int hmode, const uint8_t key[16], long len, uint64_t seed) {
+  HMAC_CTX *c = HMAC_CTX_new();
+  HMAC_Init_ex(c, key, 16, md_of(hmode), NULL);
+  std::vector<uint8_t> buf(1 << 20);
+  for (long off = 0; off < len;) {
+    size_t n = (size_t)std::min<long>((long)buf.size(), len - off);
+    for (size_t q = 0; q < n; q++) buf[q] = SimFile::synth_byte(seed, (uint64_t)(off + q));
+    HMAC_Update(c, buf.data(), n);
+    off += n;
+  }
+  Bytes out(EVP_MAX_MD_SIZE);
+  unsigned l = 0;
+  HMAC_Final(c, out.data(), &l);
+  HMAC_CTX_free(c);
+  out.resize(l);
+  return out;
 }
 
 static Bytes unhex(const char *h) {
